@@ -32,14 +32,20 @@ PID = "C20"
 MODULES = ["Spydr.Compare.Props.C20"]
 THEOREMS = [
     "Spydr.Compare.C20.compare_refl",
-    "Spydr.Compare.C20.compareUnrepaired_refl",
+    "Spydr.Compare.C20.compare_complete",
     "Spydr.Compare.C20.compare_sound",
     "Spydr.Compare.C20.compare_sound_contrapositive",
+    "Spydr.Compare.C20.compare_sound_named",
+    "Spydr.Compare.C20.compare_sound_named_contrapositive",
     "Spydr.Compare.C20.examinedEqB_iff",
+    "Spydr.Compare.C20.examinedNEqB_iff",
+    "Spydr.Compare.C20.identsEqB_iff",
     "Spydr.Compare.C20.unrepaired_accepts_moved_pin",
+    "Spydr.Compare.C20.pinned_rejects_self",
     "Spydr.Compare.C20.mutation_port_raises",
     "Spydr.Compare.C20.mutation_cable_width_raises",
     "Spydr.Compare.C20.mutation_move_connection_raises",
+    "Spydr.Compare.C20.mutation_wire_pincount_raises",
     "Spydr.Compare.C20.mutation_repoint_raises",
     "Spydr.Compare.C20.mutation_property_raises",
     "Spydr.Compare.C20.mutation_element_count_raises",
@@ -50,18 +56,37 @@ THEOREMS = [
 SIG_OUTER = "compare_outer_pins.same_instance_other_pin_accepted"
 SIG_UNINDEXED = "Comparer.lookup.copy_without_name_index_rejected"
 SIG_WILDCARD = "Comparer.lookup.wildcard_in_name_rejects_faithful_copy"
+SIG_DRC = "Comparer.compare_ports.port_without_pins_rejects_faithful_copy"
+SIG_NONAME = "Comparer.are_instances_equivalent.net_on_unnamed_instance_rejects_faithful_copy"
 
 
 # --------------------------------------------------------------------------------------------
 # canonical value (canon.cnetlist + additive fields), building a netlist from it
 # --------------------------------------------------------------------------------------------
 
+def pynorm(v):
+    """Property values are compared by the comparer with Python `==`, under which 1 == 1.0 == True and
+    0 == 0.0 == False: values are brought to one representative before their JSON text is compared
+    (tuples, which never equal lists, are tagged)."""
+    if isinstance(v, bool):
+        return int(v)
+    if isinstance(v, float) and v.is_integer():
+        return int(v)
+    if isinstance(v, list):
+        return [pynorm(x) for x in v]
+    if isinstance(v, tuple):
+        return {"tuple": [pynorm(x) for x in v]}
+    if isinstance(v, dict):
+        return {k: pynorm(x) for k, x in v.items()}
+    return v
+
+
 def _patch_inst(ci, k):
     p = k._data.get("EDIF.properties")
     if p is None:
         ci["props"] = None
     elif isinstance(p, list) and all(isinstance(d, dict) and all(isinstance(key, str) for key in d) for d in p):
-        ci["props"] = [[[key, canon.jval(v)] for key, v in d.items()] for d in p]
+        ci["props"] = [[[key, canon.jval(pynorm(v))] for key, v in d.items()] for d in p]
     else:
         ci["props"] = "unsupported"
     r = ci.get("ref")
@@ -326,6 +351,64 @@ def examined(o, n):
     return v
 
 
+def examinedN(o, n):
+    """The view of n restricted to the ORIGINAL's named elements ("among named elements"): answers only
+    at names o uses (None where n has no such element); counts are total."""
+    v = {"nLibs": len(n["libraries"]), "libs": {}, "top": None}
+    ot = o.get("top")
+    if n.get("top") is not None:
+        v["top"] = _instview(n, ot.get("props") if ot is not None else None, n["top"])
+    for ln in _names(o["libraries"]):
+        olib = _by_name(o["libraries"], ln)
+        lib = _by_name(n["libraries"], ln)
+        if lib is None:
+            v["libs"][ln] = None
+            continue
+        lv = {"nDefs": len(lib["definitions"]), "defs": {}}
+        for dn in _names(olib["definitions"]):
+            od = _by_name(olib["definitions"], dn)
+            d = _by_name(lib["definitions"], dn)
+            if d is None:
+                lv["defs"][dn] = None
+                continue
+            dv = {"nPorts": len(d["ports"]), "nCables": len(d["cables"]), "nInsts": len(d["instances"]),
+                  "ports": {}, "cables": {}, "insts": {}}
+            for pn in _names(od["ports"]):
+                p = _by_name(d["ports"], pn)
+                dv["ports"][pn] = None if p is None else {"dir": p["dir"], "width": p["width"], "isArray": not p["scalar"]}
+            for cn_ in _names(od["cables"]):
+                cb = _by_name(d["cables"], cn_)
+                dv["cables"][cn_] = None if cb is None else [[_pinview(n, d, p) for p in w] for w in cb["wires"]]
+            for kn in _names(od["instances"]):
+                k = _by_name(d["instances"], kn)
+                ok_ = _by_name(od["instances"], kn)
+                dv["insts"][kn] = None if k is None else _instview(n, ok_.get("props"), k)
+            lv["defs"][dn] = dv
+        v["libs"][ln] = lv
+    return v
+
+
+def _oid(e):
+    return e.get("data", {}).get("EDIF.original_identifier") if e is not None else None
+
+
+def idents(n):
+    """Identifier fields the comparer checks besides the examined attributes (names are the keys)."""
+    t = n.get("top")
+    v = {"name": n["name"], "oid": _oid(n), "top": None if t is None else [t["name"], _oid(t)], "libs": {}}
+    for ln in _names(n["libraries"]):
+        lib = _by_name(n["libraries"], ln)
+        lv = {"oid": _oid(lib), "defs": {}}
+        for dn in _names(lib["definitions"]):
+            d = _by_name(lib["definitions"], dn)
+            lv["defs"][dn] = {"oid": _oid(d),
+                              "ports": {x: _oid(_by_name(d["ports"], x)) for x in _names(d["ports"])},
+                              "cables": {x: _oid(_by_name(d["cables"], x)) for x in _names(d["cables"])},
+                              "insts": {x: _oid(_by_name(d["instances"], x)) for x in _names(d["instances"])}}
+        v["libs"][ln] = lv
+    return v
+
+
 def view_diff(va, vb):
     """Categories of difference between two views (for signatures)."""
     cats = set()
@@ -433,7 +516,7 @@ def py_hyp(c):
     """Named / UniqueNames / NoAssign / no wildcard characters, computed in Python (cross-checked with
     the driver's flags)."""
     named = unique = True
-    noassign = True
+    noassign = assignok = True
     glob = False
 
     def chk(lst):
@@ -456,7 +539,9 @@ def py_hyp(c):
             for k in d["instances"]:
                 if k["name"] is not None and k["name"].startswith("SDN_Assignment_"):
                     noassign = False
-    return {"named": named, "unique": unique, "noassign": noassign, "glob": glob}
+                    if len(k["name"].split("_")) < 4:
+                        assignok = False
+    return {"named": named, "unique": unique, "noassign": noassign, "assignok": assignok, "glob": glob}
 
 
 # --------------------------------------------------------------------------------------------
@@ -721,6 +806,7 @@ def enumerate_mutations(c, rng, per_kind=2):
             key = rng.choice(pr[x])[0]
             out.append({"op": "prop_change", "lib": li, "def": di, "inst": ki, "x": x, "key": key})
             out.append({"op": "prop_dropkey", "lib": li, "def": di, "inst": ki, "x": x, "key": key})
+            out.append({"op": "prop_pyequal", "lib": li, "def": di, "inst": ki, "x": x, "key": key})
         out.append({"op": "prop_dropentry", "lib": li, "def": di, "inst": ki, "x": x})
         out.append({"op": "prop_dropall", "lib": li, "def": di, "inst": ki})
         out.append({"op": "prop_addkey", "lib": li, "def": di, "inst": ki, "x": x})
@@ -851,7 +937,13 @@ def apply_mutation(B, m):
         pr = _copy.deepcopy(k["EDIF.properties"])
         if op == "prop_change":
             v = pr[m["x"]][m["key"]]
-            pr[m["x"]][m["key"]] = (v + "_changed") if isinstance(v, str) else ("changed" if isinstance(v, bool) else v + 17)
+            pr[m["x"]][m["key"]] = (v + "_changed") if isinstance(v, str) else (v + 17)   # True + 17 == 18
+        elif op == "prop_pyequal":
+            # another representation of a Python-equal value (1 == 1.0 == True): not a difference
+            v = pr[m["x"]][m["key"]]
+            if isinstance(v, (bool, int, float)) and not isinstance(v, str) and float(v).is_integer():
+                pr[m["x"]][m["key"]] = (float(v) if isinstance(v, (bool, int)) and not isinstance(v, bool) else
+                                        (bool(v) if v in (0, 1) and not isinstance(v, bool) else int(v)))
         elif op == "prop_dropkey":
             del pr[m["x"]][m["key"]]
         elif op == "prop_dropentry":
@@ -1174,7 +1266,7 @@ IN_STATEMENT = {"move_pin", "connect_free", "disconnect", "move_to_other_wire", 
 class Case:
     """Everything observed for one input x."""
     __slots__ = ("x", "status", "ca", "cb", "impl", "impl_cls", "model", "unrep", "hyp", "exEq", "py_eq", "faithful",
-                 "unindexed", "cats", "wfB", "detail")
+                 "unindexed", "cats", "wfB", "detail", "ans", "pyN_eq", "py_ids_eq")
 
 
 def evaluate(x, drv, tmpdir):
@@ -1252,9 +1344,13 @@ def observe_model(r, drv):
         r.status = "skip:driver:" + ans["error"][:80]
         return r
     r.model, r.unrep, r.hyp, r.exEq = ans["fixed"], ans["unrepaired"], ans["hyp"], ans["examinedEq"]
+    r.ans = ans
     va, vb = examined(r.ca, r.ca), examined(r.ca, r.cb)
     r.py_eq = (va == vb)
-    r.cats = [] if r.py_eq else view_diff(va, vb)
+    na, nb = examinedN(r.ca, r.ca), examinedN(r.ca, r.cb)
+    r.pyN_eq = (na == nb)
+    r.py_ids_eq = idents(r.ca) == idents(r.cb)
+    r.cats = [] if (r.py_eq and r.pyN_eq) else (view_diff(na, nb) or view_diff(va, vb))
     r.faithful = strip(r.ca) == strip(r.cb)
     return r
 
@@ -1321,37 +1417,55 @@ def judge(r, sink):
     Returns the spec-failure signature if P failed, else None."""
     x = r.x
     ha, hb = py_hyp(r.ca), py_hyp(r.cb)
-    # the driver's hypothesis flags and the Python ones must agree (harness self-check)
-    if (r.hyp["namedA"], r.hyp["uniqueA"], r.hyp["noAssignA"]) != (ha["named"], ha["unique"], ha["noassign"]) or \
-       (r.hyp["namedB"], r.hyp["uniqueB"]) != (hb["named"], hb["unique"]):
-        sink.corr_mismatch("hypothesis flags: Lean Spec vs Python oracle", x, [ha, hb], r.hyp)
+    h = r.hyp
+    # the driver's hypothesis flags / decisions and the Python ones must agree (harness self-check)
+    if (h["namedA"], h["uniqueA"], h["noAssignA"], h["assignOkA"]) != (ha["named"], ha["unique"], ha["noassign"], ha["assignok"]) or \
+       (h["namedB"], h["uniqueB"]) != (hb["named"], hb["unique"]):
+        sink.corr_mismatch("hypothesis flags: Lean Spec vs Python oracle", x, [ha, hb], h)
     if r.exEq != r.py_eq:
         sink.corr_mismatch("Spec.examinedEqB vs Python oracle `examined`", x, r.py_eq, r.exEq)
+    if r.ans["examinedNEq"] != r.pyN_eq:
+        sink.corr_mismatch("Spec.examinedNEqB vs Python oracle `examinedN`", x, r.pyN_eq, r.ans["examinedNEq"])
+    if r.ans["identsEq"] != r.py_ids_eq:
+        sink.corr_mismatch("Spec.identsEqB vs Python oracle `idents`", x, r.py_ids_eq, r.ans["identsEq"])
     glob = (ha["glob"] or hb["glob"]) and glob_effective(r.ca, r.cb)
     sig = None
+
+    def deviation():
+        """Which open repair explains impl != model (the model has every proposed repair in)."""
+        if r.unindexed and r.impl == "other" and r.impl_cls == "StopIteration":
+            return SIG_UNINDEXED
+        if glob:
+            return SIG_WILDCARD
+        if r.impl == r.ans["noDrcFix"]:
+            return SIG_DRC
+        if r.impl == r.ans["noNameFix"]:
+            return SIG_NONAME
+        if r.impl == r.ans["noDrcNoNameFix"]:
+            return SIG_DRC
+        if r.impl == r.unrep:
+            return SIG_OUTER
+        return None
     # ---- correspondence: implementation vs model of the repaired comparer
     if r.impl != r.model:
-        if r.unindexed and r.impl == "other" and r.impl_cls == "StopIteration":
-            csig = SIG_UNINDEXED
-        elif glob:
-            csig = SIG_WILDCARD
-        elif r.impl == r.unrep:
-            csig = SIG_OUTER
-        else:
-            csig = None
-        sink.corr_mismatch("Comparer.compare() vs Spydr.Compare.compare", x, r.impl + "/" + r.impl_cls, r.model, signature=csig)
-    # ---- P on the implementation
-    refl_domain = r.hyp["wfA"] and ha["named"] and ha["unique"] and ha["noassign"]
-    if r.faithful and r.impl != "ok" and refl_domain:
-        if r.unindexed and r.impl_cls == "StopIteration":
-            sig = SIG_UNINDEXED
-        elif glob:
-            sig = SIG_WILDCARD
-        else:
+        sink.corr_mismatch("Comparer.compare() vs Spydr.Compare.compare", x, r.impl + "/" + r.impl_cls, r.model, signature=deviation())
+    # ---- P, accept half: a faithful copy is accepted.  Faithful = equal CNetlist (theorem compare_refl),
+    #      or — for a fully named original — same examined view and same identifier fields, in any order
+    #      of siblings (theorem compare_complete)
+    refl_domain = h["wfA"] and ha["unique"] and ha["assignok"]
+    complete_domain = (ha["named"] and ha["unique"] and ha["noassign"] and h["wfA"] and h["wfB"] and hb["unique"]
+                       and r.py_eq and r.py_ids_eq)
+    accept = (r.faithful and refl_domain) or complete_domain
+    if accept and r.impl != "ok":
+        sig = deviation() if r.model == "ok" else None
+        if sig is None or sig == SIG_OUTER:
             sig = "Comparer.rejects_faithful_copy.%s.%s" % (x.get("copy", "rebuild"), r.impl)
-        sink.spec_failure(sig, x, "faithful copy (%s) rejected with %s" % (x.get("copy"), r.impl_cls))
-    domain = ha["named"] and ha["unique"] and hb["unique"] and ha["noassign"] and r.hyp["propKeysA"]
-    if domain and not r.py_eq and r.impl == "ok":
+        sink.spec_failure(sig, x, "faithful copy (%s; %s) rejected with %s" % (
+            x.get("copy"), "equal CNetlist" if r.faithful else "same view, siblings reordered", r.impl_cls))
+    # ---- P, reject half: a difference in what is examined among the original's named elements raises
+    domain = ha["unique"] and ha["noassign"] and h["propKeysA"]
+    differs = (not r.pyN_eq) or (ha["named"] and not r.py_eq)
+    if domain and differs and r.impl == "ok":
         if r.cats == ["pin.outer.portbit"]:
             sig = SIG_OUTER
         else:
@@ -1362,13 +1476,13 @@ def judge(r, sink):
     # every mutation taken from the statement's list must be visible in the examined view (otherwise the
     # case would test nothing): harness self-check
     muts = x.get("mut", [])
-    if len(muts) == 1 and muts[0]["op"] in IN_STATEMENT and r.py_eq and ha["named"] and ha["unique"]:
+    if len(muts) == 1 and muts[0]["op"] in IN_STATEMENT and r.pyN_eq and ha["named"] and ha["unique"]:
         sink.corr_mismatch("harness: a mutation from the statement's list left the examined view unchanged", x, muts[0], None)
-    # the theorem, instantiated: model ok under the hypotheses => views equal (sanity of the whole chain)
-    if domain and r.model == "ok" and not r.py_eq:
-        sink.corr_mismatch("theorem compare_sound instantiated (model ok but Python oracle sees a difference)", x, r.cats, "ok")
-    if r.faithful and r.model != "ok" and r.hyp["wfA"] and ha["named"] and ha["unique"] and ha["noassign"]:
-        sink.corr_mismatch("theorem compare_refl instantiated (model rejects a faithful copy)", x, r.model, "ok")
+    # the theorems, instantiated (sanity of the whole chain)
+    if domain and r.model == "ok" and differs:
+        sink.corr_mismatch("theorem compare_sound(_named) instantiated (model ok but Python oracle sees a difference)", x, r.cats, "ok")
+    if accept and r.model != "ok":
+        sink.corr_mismatch("theorem compare_refl / compare_complete instantiated (model rejects a faithful copy)", x, r.model, "ok")
     return sig
 
 
@@ -1537,7 +1651,7 @@ def decorate(nl, rng, twins=True, props=True, oids=True):
                 for j in range(rng.randint(0, 3)):
                     d = {"identifier": "P%d" % j}
                     if rng.random() < 0.9:
-                        d["value"] = rng.choice(["8'h01", "TRUE", 7, 42, "x y", True, False])
+                        d["value"] = rng.choice(["8'h01", "TRUE", 7, 42, "x y", True, False, 1, 0, 1.0, 0.0, "1", 2.5])
                     if rng.random() < 0.2:
                         d["owner"] = "Xilinx"
                     pr.append(d)
@@ -1555,6 +1669,11 @@ def decorate(nl, rng, twins=True, props=True, oids=True):
                     q.create_pins(len(p.pins))
                     if len(p.pins) == 1:
                         q.is_scalar = p.is_scalar
+    if rng.random() < 0.1:
+        # a named port without pins (legal through the API)
+        ds = [d for lib in nl.libraries for d in lib.definitions]
+        d = rng.choice(ds)
+        d.create_port(name=_fresh([p.name for p in d.ports], "P0pins"))
     if oids:
         for lib in nl.libraries:
             for d in lib.definitions:
@@ -1586,10 +1705,16 @@ def _record(res, r, tag):
     if not r.wfB:
         res.dist("copy-not-wellformed")
     h = r.hyp
-    if h["wfA"] and h["namedA"] and h["uniqueA"] and h["noAssignA"]:
+    if h["wfA"] and h["uniqueA"] and h["assignOkA"]:
         res.dist("hyp:refl-hypotheses-hold(a)")
-    if h["namedA"] and h["uniqueA"] and h["uniqueB"] and h["noAssignA"] and h["propKeysA"]:
-        res.dist("hyp:sound-hypotheses-hold(a,b)")
+    if h["uniqueA"] and h["noAssignA"] and h["propKeysA"]:
+        res.dist("hyp:sound_named-hypotheses-hold(a)")
+        if not h["namedA"]:
+            res.dist("hyp:original-partly-named")
+    if h["namedA"] and h["uniqueA"] and h["noAssignA"] and h["wfA"] and h["wfB"] and h["uniqueB"] and r.py_eq and r.py_ids_eq:
+        res.dist("hyp:complete-hypotheses-hold(a,b)")
+        if not r.faithful:
+            res.dist("faithful-by-view-only(reordered)")
 
 
 def _nontrivial(c):
